@@ -28,7 +28,11 @@ RULE_ADDED = (
               'boundaries; device signatures of every well-formed shape '
               ' '
               'Round 8: scripts whose final operation also occurs earlier in the script; loggin'
-              'g configured as shipped. ')
+              'g configured as shipped. '
+              ' '
+              'Round 9: 12% of the authorized cases are preceded, on the same manager, by a sig'
+              'n refused late (proof node of 256 bytes, 256 nodes, input beyond the last, empty'
+              ' receipt, trailing tx byte). ')
 RULE = RULE + " " + RULE_ADDED.strip()
 ASSUMPTIONS = [
     "device model and fake HID transport are trusted (pv/simdev); they follow the framing only",
@@ -373,6 +377,42 @@ def run_case(acc, c, spec, stacks):
     dev.chunk = b["chunk"]
     dev.sign_policy = b["sign_policy"]
     dev.signatures = iter([b["sig"]] * 3)
+    prng = random.Random(c["seed"] ^ 0x2545f491)
+    if "tx" in b and not c["v1"] and prng.random() < 0.12:
+        # the request before this one, on the same manager, was a sign request with one
+        # thing wrong that is only found out late (by the middleware while it encodes a
+        # part, or by the device): whatever that one left behind, this one is relayed as is
+        import copy as _copy
+        pre = _copy.deepcopy(b["req"])
+        how = prng.choice(["proof-node-256-bytes-last", "proof-node-256-bytes-last",
+                           "proof-node-256-bytes-first", "proof-256-nodes",
+                           "input-beyond-last", "receipt-empty", "tx-trailing-byte"])
+        try:
+            if how == "proof-node-256-bytes-last":
+                pre["auth"]["receipt_merkle_proof"] = [
+                    prng.randbytes(prng.randint(1, 60)).hex()
+                    for _ in range(prng.randint(1, 4))] + [prng.randbytes(256).hex()]
+            elif how == "proof-node-256-bytes-first":
+                pre["auth"]["receipt_merkle_proof"] = [prng.randbytes(256).hex(), "aa" * 5]
+            elif how == "proof-256-nodes":
+                pre["auth"]["receipt_merkle_proof"] = ["ab"] * 256
+            elif how == "input-beyond-last":
+                pre["message"]["input"] = len(b["tx"]["ins"]) + prng.randint(0, 3)
+            elif how == "receipt-empty":
+                pre["auth"]["receipt"] = ""
+            else:
+                pre["message"]["tx"] = pre["message"]["tx"] + "00"
+            rp, ep, _ = s.request(pre)
+            acc.count("cases_preceded_by_a_sign_refused_late")
+            dev.reset_sign()
+            del s.bus.events[:]
+            if ep is not None:
+                # (not this property's business; start over on a fresh manager)
+                s.__exit__(None, None, None)
+                stacks.pop(key, None)
+                return run_case(acc, c, spec, stacks)
+        except (KeyError, TypeError):
+            pass
     nrec = len(dev.sign_records)
     mark = len(s.bus.events)
     if b.get("exchange_fault"):
